@@ -55,6 +55,8 @@ R = {
  "C16-4": (True, "target_peers::c16_new_quorum_empty_targets (Kani): required acknowledgements >= 1 for an empty target set, every quorum"),
  "C18-3": (True, "peer_id::c18_from_multihash_agrees_with_reference and c18_from_multihash_contract (Kani, natively replayed)"),
  "C18-4": (True, "peer_id::PeerId::from_bytes (Verus): parsed only from the COMPLETE encoding — caught after from_bytes was brought under contract with both dependency entry points declared; before that: not decided"),
+ "C03-5": (True, "msdialer_stream::DialerSelectFuture::poll (Verus): Pending keeps the state invariant — an answer is awaited only after everything submitted has been flushed"),
+ "C03-6": (True, "msdialer_stream::DialerSelectFuture::poll (Verus): the lazy shortcut is taken only on the dialer's LAST candidate — *missed at first* (the clause said only 'V1Lazy'), strengthened with 'nothing is left that could still be proposed'"),
  "C20-2": (False, "config constant MAX_BATCH_SIZE: the relation between batch size and the protobuf-encoded message size (send_response, async) is not_decided for C20"),
 }
 for k, (det, why) in R.items():
